@@ -24,6 +24,16 @@ def tasks(tier, seed):
                                     lvl, cs, 'initial all-zero statistics' if hi else 'final', lo, lo + step),
                            reach=('h_trunc:end',), bounds='4 objects; every truncation offset',
                            kinds={'assert', 'memory', 'uncaught_exception', 'terminate', 'deadlock', 'hang', 'limit', 'leak'}))
+    for lvl, cs, hi in (cfgs[:1] if tier == 'quick' else cfgs[:3]):
+        for lo in range(0, 800, step * 2):
+            txt = '#define SCALED_STREAM 1\n#define VP_FS_CAP 4096\n#define CFG_LEVEL %d\n#define CFG_CONTAINER %d\n#define HEADER_INITIAL %d\n#define T_LO %d\n' \
+                  '#define T_HI %d\n' % (lvl, cs, hi, lo, lo + step * 2) + src
+            ts.append(Task('trunc_scaled.l%d_c%d_h%d.t%d' % (lvl, cs, hi, lo), txt, 'h_trunc', None,
+                           opts=dict(validate=False, extra=['zlib_stub.cpp'], limit_is_hang=True, max_wall=1500, max_steps=6000000, enum_limit=400),
+                           desc='the same with the stream buffer scaled down to one container (the inflater is behind the decoder when the '
+                                'decoder reaches the damaged object), cut at every offset in [%d, %d)' % (lo, lo + step * 2),
+                           reach=('h_trunc:end',), bounds='4 objects; every truncation offset',
+                           kinds={'assert', 'memory', 'uncaught_exception', 'terminate', 'deadlock', 'hang', 'limit', 'leak'}))
     meta = dict(
         level='model_checking',
         explanation='A valid file is produced by the real writer inside the symbolic run; for EVERY truncation offset (complete '
